@@ -41,6 +41,8 @@ def tree_list(tier, which):
         elif which == 'two':
             add(3, ['rich'], V2, 'default')
             add(2, ['ns'], V2, 'default')
+        elif which == 'raw':
+            add(3, ['cpi', 'rich', 'text'], ALLV, 'all')
         else:
             add(3, ['rich'], V2, 'default')
             add(2, ['bare'], V2, 'default')
@@ -55,6 +57,8 @@ def tree_list(tier, which):
             add(4, ['rich'], V2, 'default', 4)
         elif which == 'three':
             add(3, ['rich'], V2, 'default')
+        elif which == 'raw':
+            add(4, ['cpi', 'rich', 'text', 'bare'], ALLV, 'all')
         else:
             add(3, ['bare', 'rich', 'cpi'], ALLV, 'two')
             add(4, ['rich'], V2, 'default', 4)
@@ -82,6 +86,9 @@ def path_groups(tier):
     n = 13 if q else 39
     for i in range(n):
         groups['P|%d' % i] = ('paren', par[i::n])
+    # raw library objects (Element, Comment, ProcessingInstruction) passed as root AND as context item: relative one-step paths
+    for ax in xdm.AXES:
+        groups['R|%s' % ax] = ('raw', list(PG.with_abbrev(PG.one_step(tests=PG.TESTS_RED[1:3] if q else PG.TESTS_FULL[2:], preds=PG.PREDS_RED, prefixes=[''], axes=[ax]))))
     return groups
 
 
@@ -133,7 +140,7 @@ ROOTKINDS = [('hidden', 'elem', None), ('fragment', 'elem', True), ('document', 
 
 class Case:
     """one (tree, lib, rootkind): implementation node tree + mapping to model refs"""
-    __slots__ = ('tid', 'lib', 'rk', 'mat', 'root_node', 'model', 'node_of_ref', 'is_ns', 'desc', 'frag')
+    __slots__ = ('tid', 'lib', 'rk', 'mat', 'root_node', 'model', 'node_of_ref', 'is_ns', 'desc', 'frag', 'raw_root')
 
 
 def impl_ref(node, mat, cache):
@@ -191,6 +198,7 @@ def get_cases(tid, desc):
                 models[mk] = xdm.build(desc, rk, nsmode, NSMAP if is_ns else None)
             cs.model = models[mk]
             root = mat.root if what == 'elem' else mat.doc
+            cs.raw_root = root
             ctx = XPathContext(root=root, fragment=frag, namespaces=dict(NSMAP) if (is_ns and lib == 'etree') else None)
             cs.root_node = ctx.root
             out.append(cs)
@@ -289,6 +297,10 @@ def ns_positional(ast):
     return False
 
 
+def ns_result(refs):
+    return any(len(r) >= 2 and r[-2] == 'ns' for r in refs)
+
+
 def following_anywhere(ast):
     return any(x[1] == 'following' for x in all_steps(ast))
 
@@ -315,10 +327,10 @@ def libxml2_excluded(ast):
     return False
 
 
-def lxml_eval(cs, ast, pstr, ctxn):
+def lxml_eval(cs, ast, pstr, ctxn, force=False):
     """libxml2 on the same case -> list of refs, or None when not comparable"""
     mat = cs.mat
-    if libxml2_excluded(ast):
+    if libxml2_excluded(ast) and not force:
         return None
     if ctxn.kind == 'document':
         if 'paren' in ast:
@@ -374,7 +386,7 @@ class OracleDisagreement(Exception):
     pass
 
 
-def run_case(cs, ast, ver, tok, pstr, ctxn, exp, acc, tier):
+def run_case(cs, ast, ver, tok, pstr, ctxn, exp, acc, tier, also_ok=None):
     from elementpath import XPathContext, ElementPathError
     cache = _RC.setdefault(id(cs.mat), {})
     item = None
@@ -398,7 +410,7 @@ def run_case(cs, ast, ver, tok, pstr, ctxn, exp, acc, tier):
     acc.ev()
     acc.cmp()
     kind = classify(exp, got)
-    if kind is None:
+    if kind is None or (also_ok is not None and classify(also_ok, got) is None):
         return None
     if kind in ('extra', 'missing', 'different-set'):
         # is this exactly one of the recorded deviations?  (alternative reference semantics, see known_findings.json)
@@ -428,7 +440,7 @@ def run_case(cs, ast, ver, tok, pstr, ctxn, exp, acc, tier):
 
 
 _NODEMAP = {}
-KNOWN_DEVIATIONS = [('attr_self',), ('hidden_child',)]
+KNOWN_DEVIATIONS = [('attr_self',), ('hidden_child',), ('attr_following_empty',), ('attr_self', 'attr_following_empty')]
 _RC = {}
 
 
@@ -436,7 +448,72 @@ def run_unit(unit, tier, acc):
     groups = path_groups(tier)
     which, asts = groups[unit]
     tl = tree_list(tier, which)
-    _run(tl, asts, acc, tier)
+    if which == 'raw':
+        _run_raw(tl, asts, acc, tier)
+    else:
+        _run(tl, asts, acc, tier)
+
+
+def _run_raw(tl, asts, acc, tier):
+    """The context is built from the library objects themselves: XPathContext(root=<Element | ElementTree>, item=<Element | Comment | PI>).
+    Every element, comment and processing instruction of the tree is the context item in turn; relative one-step paths over every axis."""
+    from elementpath import XPathContext, ElementPathError
+    plain = [(a, PG.path_str(a)) for a in asts]
+    toks = {}
+    sample_done = False
+    for tid, desc, versions, _ctxmode in tl:
+        for cs in get_cases(tid, desc):
+            root_obj = cs.mat.root if (cs.rk != 'document' or cs.frag is False) else cs.mat.doc
+            root_obj = cs.raw_root
+            for ctxn in cs.model.nodes:
+                if ctxn.kind not in ('element', 'comment', 'pi') or ctxn.hidden:
+                    continue
+                raw = cs.mat.obj_of.get(ctxn.ref)
+                if raw is None:
+                    continue
+                for ast, pstr in plain:
+                    if libxml2_excluded(ast) or ns_positional(ast):
+                        continue
+                    exp = norm_ns([n.ref for n in xdm.eval_path(cs.model, ast, ctxn, NSMAP)])
+                    acc.case(bool(exp))
+                    for ver in versions:
+                        tok = toks.get((ver, pstr))
+                        if tok is None:
+                            tok = toks[(ver, pstr)] = _tok(ver, False, pstr)
+                        if isinstance(tok, tuple):
+                            continue        # judged by the path units
+                        cache = {}
+                        try:
+                            ctx = XPathContext(root=root_obj, item=raw, fragment=cs.frag)
+                            got = [impl_ref(n, cs.mat, cache) if hasattr(n, 'position') else ('atomic', repr(n)) for n in tok.select(ctx)]
+                            if cs.rk == 'hidden':
+                                got = [r for r in got if r != ('doc',)]
+                            got = norm_ns(got)
+                        except ElementPathError as e:
+                            got = [('error', (e.code or '').split(':')[-1])]
+                        except Exception as e:  # noqa
+                            got = [('escape', type(e).__name__)]
+                        acc.ev()
+                        acc.cmp()
+                        kind = classify(exp, got)
+                        acc.outcome(kind or ('nodes:%d' % min(len(exp), 9)))
+                        if kind is None:
+                            continue
+                        known = False
+                        for flags in KNOWN_DEVIATIONS:
+                            if 'hidden_child' in flags and cs.rk != 'hidden':
+                                continue
+                            if norm_ns([n.ref for n in xdm.eval_path(cs.model, ast, ctxn, NSMAP, alt=flags)]) == got:
+                                kind, known = 'known-deviation:' + '+'.join(flags), True
+                        if got and got[0][:1] in (('error',), ('escape',)):
+                            kind = got[0][0] + ':' + got[0][1]
+                        acc.violation('C01|' + kind if known else 'C01|raw-item|%s|%s|%s|%s' % (kind, ctxn.kind, cs.rk, ast['steps'][0][1]),
+                                      '%s %s %s raw item=%s tree=%s path=%s' % (ver, cs.lib, cs.rk, ctxn.ref, G.to_xml(cs.desc), pstr),
+                                      {'expected': [list(map(str, r)) for r in exp], 'observed': [list(map(str, r)) for r in got]},
+                                      {'tid': cs.tid, 'desc': cs.desc, 'lib': cs.lib, 'rk': cs.rk, 'ver': ver, 'ast': ast, 'ctx': list(ctxn.ref), 'is_ns': cs.is_ns, 'raw': True})
+                if not sample_done:
+                    acc.sample({'tree': G.to_xml(desc), 'context': 'XPathContext(root=<%s object>, item=<raw %s object %s>)' % (cs.lib, ctxn.kind, list(ctxn.ref)), 'path': plain[0][1]})
+                    sample_done = True
 
 
 def _tok(ver, ns, s):
@@ -477,15 +554,20 @@ def _run(tl, asts, acc, tier):
                         elif libxml2_excluded(ast) or (ctxn.kind in ('attribute', 'namespace') and following_anywhere(ast)):
                             # following:: from an attribute/namespace node: the XDM definition (includes the parent's
                             # children) and libxml2 (following of the parent) differ, so the two clauses of C01
-                            # contradict each other here: not judged
-                            memo[mk] = None
+                            # contradict each other here: either result is accepted, anything else is a violation
+                            e_xdm = norm_ns([n.ref for n in xdm.eval_path(cs.model, ast, ctxn, NSMAP)])
+                            e_lib = norm_ns([n.ref for n in xdm.eval_path(cs.model, ast, ctxn, NSMAP, alt=('following_of_parent',))])
+                            memo[mk] = ('either', e_xdm, e_lib)
+                            acc.case(bool(e_xdm))
                         else:
                             memo[mk] = norm_ns([n.ref for n in xdm.eval_path(cs.model, ast, ctxn, NSMAP)])
                             acc.case(bool(memo[mk]))
                             # libxml2 binding of the oracle: document root kind, lxml
                         exp0 = memo[mk]
+                        if isinstance(exp0, tuple):
+                            exp0 = exp0[2] if not ns_result(exp0[2]) else None      # libxml2 must agree with the 'following of the parent' reading
                         if exp0 is not None and cs.rk == 'document' and cs.lib == 'lxml':
-                            lx = lxml_eval(cs, ast, pstr, ctxn)
+                            lx = lxml_eval(cs, ast, pstr, ctxn, force=isinstance(memo[mk], tuple))
                             if lx is not None:
                                 acc.add('libxml2_compared')
                                 want = [r for r in exp0 if r != ('doc',)]
@@ -502,6 +584,9 @@ def _run(tl, asts, acc, tier):
                     exp = memo[mk]
                     if exp is None:
                         continue
+                    also_ok = None
+                    if isinstance(exp, tuple):
+                        exp, also_ok = exp[1], exp[2]
                     for ver in versions:
                         tk = (ver, is_ns, pstr)
                         tok = toks.get(tk)
@@ -516,7 +601,7 @@ def _run(tl, asts, acc, tier):
                                           {'tid': tid, 'desc': desc, 'lib': cs.lib, 'rk': cs.rk, 'ver': ver, 'ast': ast,
                                            'ctx': list(ctxn.ref), 'is_ns': is_ns})
                             continue
-                        k = run_case(cs, ast, ver, tok, pstr, ctxn, exp, acc, tier)
+                        k = run_case(cs, ast, ver, tok, pstr, ctxn, exp, acc, tier, also_ok)
                         acc.outcome(k or ('nodes:%d' % min(len(exp), 9)))
             if not sample_done and memo:
                 vals = [v for v in memo.values() if v]
@@ -530,6 +615,9 @@ def replay(case, acc):
     desc = case['desc']
     tid = case['tid']
     _TREES.pop(tid, None)
+    if case.get('raw'):
+        _run_raw([(tid, desc, [case['ver']], 'all')], [ast], acc, 'quick')
+        return
     cases = get_cases(tid, desc)
     is_ns = case['is_ns']
     pstr = PG.path_str(ast)
